@@ -56,7 +56,7 @@ const (
 
 const (
 	walName         = "wal"
-	maxMsgSizeBytes = 1024 * 1024 // consensus/wal.go
+	maxMsgSizeBytes = 1048576 + 4096 // consensus/wal.go: reactor maxMsgSize plus the WAL envelope allowance
 	exhaustiveLimit = 4096        // logs up to this size get every truncation offset
 	bufioSize       = 4096 * 10   // libs/autofile/group.go: size of the head's bufio.Writer
 	// a height no generated log ever writes; the embedded ("sled") frames carry it
